@@ -141,7 +141,9 @@ func Load(dir string, env []string, tags string, universe []string) (*Prog, erro
 	}
 	addFn := func(f *ssa.Function) {}
 	addFn = func(f *ssa.Function) {
-		if f == nil || f.Blocks == nil || f.Synthetic != "" || p.funcSet[f] || excludedFunc(f) {
+		// the body of a range-over-func loop is compiled into a synthetic yield function: it is source code like any
+		// other literal
+		if f == nil || f.Blocks == nil || (f.Synthetic != "" && !isYieldFn(f)) || p.funcSet[f] || excludedFunc(f) {
 			return
 		}
 		p.Funcs = append(p.Funcs, f)
@@ -170,6 +172,18 @@ func Load(dir string, env []string, tags string, universe []string) (*Prog, erro
 	for f := range ssautil.AllFunctions(prog) {
 		if f.Pkg == nil && f.Origin() != nil && f.Origin().Pkg != nil && p.Universe[f.Origin().Pkg] {
 			addFn(f)
+			// a concrete instance (go/ssa marks it synthetic, so it is not enumerated as a source of obligations — the
+			// generic body is) is still repository code: rules that follow a call into a helper follow it
+			if f.Blocks != nil && strings.HasPrefix(f.Synthetic, "instance of ") {
+				var mark func(g *ssa.Function)
+				mark = func(g *ssa.Function) {
+					p.funcSet[g] = true
+					for _, a := range g.AnonFuncs {
+						mark(a)
+					}
+				}
+				mark(f)
+			}
 		}
 	}
 	sort.Slice(p.Funcs, func(i, j int) bool { return funcKey(p.Funcs[i]) < funcKey(p.Funcs[j]) })
@@ -242,6 +256,11 @@ func (p *Prog) callees(site ssa.CallInstruction, unwrap bool) []*ssa.Function {
 			}
 		}
 	}
+	// a call of the result of a repository function that returns function literals (an iterator constructor:
+	// `for x := range h.storedBetween(a, b)` calls the literal storedBetween returns)
+	if lits := p.returnedLiterals(site.Common().Value); len(lits) > 0 && !site.Common().IsInvoke() {
+		return lits
+	}
 	n := p.CG().Nodes[site.Parent()]
 	if n == nil {
 		return nil
@@ -259,6 +278,42 @@ func (p *Prog) callees(site ssa.CallInstruction, unwrap bool) []*ssa.Function {
 		}
 	}
 	sort.Slice(out, func(i, j int) bool { return funcKey(out[i]) < funcKey(out[j]) })
+	return out
+}
+
+// isYieldFn: the synthetic function go/ssa builds for the body of a range-over-func loop.
+func isYieldFn(f *ssa.Function) bool { return f != nil && f.Synthetic == "range-over-func yield" }
+
+// returnedLiterals: v is the result of a static call to a repository function every return of which yields a function
+// literal (or a declared function); those functions are what a call of v runs. nil if not of that shape.
+func (p *Prog) returnedLiterals(v ssa.Value) []*ssa.Function {
+	c, ok := p.origin(v).(*ssa.Call)
+	if !ok {
+		return nil
+	}
+	g := c.Call.StaticCallee()
+	if g == nil || !p.InUniverse(g) || g.Blocks == nil || g.Signature.Results().Len() != 1 {
+		return nil
+	}
+	var out []*ssa.Function
+	for _, b := range g.Blocks {
+		ret, ok := b.Instrs[len(b.Instrs)-1].(*ssa.Return)
+		if !ok || len(ret.Results) != 1 {
+			continue
+		}
+		r := p.origin(ret.Results[0])
+		if ct, ok := r.(*ssa.ChangeType); ok {
+			r = p.origin(ct.X)
+		}
+		switch x := r.(type) {
+		case *ssa.MakeClosure:
+			out = append(out, x.Fn.(*ssa.Function))
+		case *ssa.Function:
+			out = append(out, x)
+		default:
+			return nil
+		}
+	}
 	return out
 }
 
